@@ -307,7 +307,7 @@ func genRTReqs(t *rapid.T, withCreds bool, mitm bool) []RTReq {
 	for i := 0; i < n; i++ {
 		r := RTReq{Host: rapid.SampledFrom([]string{"A", "A", "B", "L"}).Draw(t, "host"), Kind: rapid.SampledFrom([]string{"http", "http", "connect"}).Draw(t, "kind"),
 			Method: rapid.SampledFrom([]string{"GET", "POST", "HEAD"}).Draw(t, "method")}
-		if withCreds {
+		{
 			// targets whose port is implied by the scheme: http://a.test/ and (inside MITM) https://a.test/
 			switch rapid.IntRange(0, 5).Draw(t, "defport") {
 			case 0, 1:
@@ -654,6 +654,10 @@ func runC05(c RTCase) (fails []vstat.Failure) {
 	}()
 	id := caseSeq.Add(1)
 	for i, r := range c.Reqs {
+		if _, op := e.hostOf(r.Host); op == nil {
+			st.Class("default-port-origin-unavailable")
+			continue
+		}
 		x := e.refRoute(c.Cfg, r)
 		o := e.rtExchange(px, r, fmt.Sprintf("%d-%d", id, i))
 		fails = append(fails, judgeRoute(e, c.Cfg, r, i, x, o)...)
@@ -694,7 +698,7 @@ func judgeRoute(e *rtEnv, cfg RTConfig, r RTReq, i int, x route, o rtObs) (fails
 		allowed[x.peer] = true
 	}
 	// a tunnelling hop (CONNECT through an HTTP(S) proxy / anything through SOCKS / redirect target R) contacts the final target itself
-	if x.peer != "" && x.peer != origin.Name && (r.Kind == "connect" || x.hopKind == "socks5") {
+	if x.peer != "" && x.peer != origin.Name && (r.Kind == "connect" || r.Kind == "mitm" || x.hopKind == "socks5") {
 		allowed[origin.Name] = true
 	}
 	for _, n := range o.changed {
@@ -723,6 +727,12 @@ func judgeRoute(e *rtEnv, cfg RTConfig, r RTReq, i int, x route, o rtObs) (fails
 	// protocol spoken to the hop, when the hop speaks the protocol the route expects
 	hopPeer := e.peers[x.peer]
 	plainHTTPPeer := x.peer != "S" && x.peer != "T"
+	if x.peer == "OA443" && r.Kind != "mitm" {
+		plainHTTPPeer = false // clear text sent to the TLS origin: only the contact is asserted
+	}
+	if r.Kind == "mitm" && x.hopKind == "direct" && x.peer != "OA443" {
+		plainHTTPPeer = false // a TLS hello sent to a redirect target that speaks clear text: only the contact is asserted
+	}
 	switch {
 	case x.hopKind == "direct" && plainHTTPPeer:
 		ms := o.hopMsgs[x.peer]
@@ -737,7 +747,7 @@ func judgeRoute(e *rtEnv, cfg RTConfig, r RTReq, i int, x route, o rtObs) (fails
 		if len(ms) != 1 || !strings.HasPrefix(ms[0].Target, "http://") {
 			fails = append(fails, vstat.Failf(key("proxy-form"), "HTTP proxy route: %s should see one absolute-form request, saw %v: %s", x.peer, summarize(ms), desc))
 		}
-	case x.hopKind == "http" && plainHTTPPeer && r.Kind == "connect":
+	case x.hopKind == "http" && plainHTTPPeer && (r.Kind == "connect" || r.Kind == "mitm"):
 		found := false
 		for _, rr := range hopPeer.Requests() {
 			if rr.Msg != nil && rr.Msg.Method == "CONNECT" {
@@ -811,7 +821,11 @@ func classifyRT(c RTCase) (bool, string, []string) {
 }
 
 var propC05 = vstat.Prop[RTCase]{Name: "TestC05Routing",
-	Gen: func(t *rapid.T) RTCase { return RTCase{Cfg: genRTConfig(t, false), Reqs: genRTReqs(t, false, false)} },
+	Gen: func(t *rapid.T) RTCase {
+		cfg := genRTConfig(t, false)
+		cfg.MITM = rapid.IntRange(0, 5).Draw(t, "mitm") == 0
+		return RTCase{Cfg: cfg, Reqs: genRTReqs(t, false, cfg.MITM)}
+	},
 	Run: runC05, Classify: classifyRT}
 
 func TestC05Routing(t *testing.T) { propC05.Check(t, st) }
